@@ -710,6 +710,16 @@ def prop_c07unknown(k, bs, es, ephs, ephs2, keep):
             return f"FAIL unopened block {i} (tag {x[0]}) changed on re-writing"
         if i == keep and x[0] != y[0]:
             return f"FAIL opened block {i} moved"
+    # the rewritten file still has ONE session key: the kept blocks and the re-packed block wrap the same key,
+    # and it is the key of the original file
+    if f.session_key != key:
+        return f"FAIL the file object read with a subset of decryptors carries session key {f.session_key.hex()} instead of {key.hex()}"
+    try:
+        g2 = Bec2File.read_file(io.StringIO(b3.to_text(b)), list(wencs) + [dec], True)
+    except Exception as e:
+        return f"FAIL the re-written file is not readable with all decryptors: {type(e).__name__}: {e}"
+    if g2.session_key != key:
+        return f"FAIL the re-written file wraps session key {g2.session_key.hex()} instead of {key.hex()}"
     return "ok"
 
 
